@@ -295,6 +295,11 @@ def run_scenario(sc):
                 state["loading_left"] -= 1
                 return Fault("error", 14)
             f = faults.get(key)
+            if api == "Produce" and f is not None:
+                state["produce_faulted"] = True
+            if api == "Metadata" and f is None and state.get("produce_faulted") and sc.get("slow_metadata_after_fault"):
+                # the metadata refresh that follows a faulted Produce is slow (keeps the re-enqueued batch queued)
+                return Fault("delay", 0, sc["slow_metadata_after_fault"])
             if f is None:
                 return None
             if api in ("Metadata", "ApiVersions") and f["kind"] == "error":
